@@ -41,14 +41,15 @@ def has_strided_matrix(desc):
     return False
 
 
-def index_maps(ck, harness, driver):
-    p = ck.run([harness], timeout=600)
-    if p.returncode != 0:
-        raise vlib.BuildError("index enumeration harness failed on the current tree", p.stdout[-500:] + p.stderr[-2000:])
+def index_maps(ck, harnesses, driver):
     reqs = []
-    for line in p.stdout.splitlines():
-        r, v = line.rsplit(" = ", 1)
-        reqs.append((r, v))
+    for harness in harnesses:
+        p = ck.run([harness], timeout=600)
+        if p.returncode != 0:
+            raise vlib.BuildError("index enumeration harness failed on the current tree", p.stdout[-500:] + p.stderr[-2000:])
+        for line in p.stdout.splitlines():
+            r, v = line.rsplit(" = ", 1)
+            reqs.append((r, v))
     text = "".join((("idx " + r[5:]) if r.startswith("idxa ") else r) + "\n" for r, _ in reqs)
     pm = ck.run([driver], input=text, timeout=600)
     model = pm.stdout.splitlines()
@@ -220,13 +221,13 @@ def run(ck):
     chunks = [progs[i:i + per_tu] for i in range(0, len(progs), per_tu)]
     cv = vlib.REPO + "/src/Exception/ContractViolation.cxx"
     gdir = os.path.join(vlib.VERIF, "harness", "C17")
-    jobs = [("c17idx", ["C17/indices.cxx", cv])]
+    jobs = [("c17idx1", ["C17/indices.cxx", cv], ("-DC17_PART=1",)), ("c17idx2", ["C17/indices.cxx", cv], ("-DC17_PART=2",))]
     for i, ch in enumerate(chunks):
         src = os.path.join(ck.work, "gen_%d.cxx" % i)
         ck.write("gen_%d.cxx" % i, c17gen.cxx_file(ch))
-        jobs.append(("c17p%d" % i, [src, cv]))
+        jobs.append(("c17p%d" % i, [src, cv], ()))
     with ThreadPoolExecutor(max_workers=int(os.environ.get("VERIF_C17_JOBS", "4"))) as ex:
-        futs = [(n, ex.submit(ck.cxx, n, s, opt="-O0")) for n, s in jobs]
+        futs = [(n, ex.submit(ck.cxx, n, s, flags=fl, opt="-O0")) for n, s, fl in jobs]
         bins = {}
         for n, f in futs:
             bins[n] = f.result()
@@ -291,7 +292,7 @@ def run(ck):
             return None
         ck.lean_violations(res, search)
     # ---- (a) index maps
-    cov_a = index_maps(ck, bins["c17idx"], driver)
+    cov_a = index_maps(ck, [bins["c17idx1"], bins["c17idx2"]], driver)
     if ck.tier == "thorough" and res.ok:
         for m, log in ck.leanchecker([PROPS_A]):
             ck.violation("leanchecker:" + m, "leanchecker rejects " + m, {"log": log}, False)
